@@ -1,7 +1,10 @@
 # usage: bash step_exec_cases.sh <dir of the built tree> <case dir> <n>
 # For i in 0..n-1 runs the real step_exec (util.sh) in the mode of <case dir>/<i>.mode with
-# fakeexec printing <case dir>/<i>.log and exiting <case dir>/<i>.rc; prints "<i> <return value>".
-# <case dir>/<i>.late present: the pipeline's tee is the late one.
+# fakeexec printing <case dir>/<i>.log and exiting <case dir>/<i>.rc; prints
+#   "<i> <return value> <same|differs> <late|sys>"
+# same/differs: the log file step_exec left (tee's output) compared with what the runner printed;
+# late/sys: which tee ran.  <case dir>/<i>.late present: the pipeline's tee is the late one, delayed by the
+# number of seconds in that file (empty: 0.2).
 EXECDIR="$1"; _dir="$2"; _n="$3"
 _tools="$(cd "$(dirname "$0")" && pwd)"
 . "${EXECDIR}/util.sh"
@@ -15,9 +18,18 @@ _i=0
 while [ "${_i}" -lt "${_n}" ]; do
 	_MODE="$(cat "${_dir}/${_i}.mode")"
 	export FAKE_LOG="${_dir}/${_i}.log" FAKE_RC="$(cat "${_dir}/${_i}.rc")"
-	if [ -e "${_dir}/${_i}.late" ]; then PATH="${_tools}/latetee:${_path}"; else PATH="${_path}"; fi
+	rm -f "${_dir}/${_i}.out" "${_dir}/${_i}.out.late-tee"
+	if [ -e "${_dir}/${_i}.late" ]; then
+		PATH="${_tools}/latetee:${_path}"
+		LATE_TEE_DELAY="$(cat "${_dir}/${_i}.late")"; export LATE_TEE_DELAY="${LATE_TEE_DELAY:-0.2}"
+	else
+		PATH="${_path}"
+	fi
 	_rv=0
 	step_exec -l "${_dir}/${_i}.out" -s step >/dev/null 2>&1 || _rv="$?"
-	echo "${_i} ${_rv}"
+	PATH="${_path}"
+	if cmp -s "${FAKE_LOG}" "${_dir}/${_i}.out"; then _same=same; else _same=differs; fi
+	if [ -e "${_dir}/${_i}.out.late-tee" ]; then _lt=late; else _lt=sys; fi
+	echo "${_i} ${_rv} ${_same} ${_lt}"
 	_i=$((_i + 1))
 done
